@@ -135,16 +135,21 @@ def rule_seq(repo: Repo, rep: Report) -> int:
     asg = [s for s in stmts_of(init.body) if isinstance(s, ast.Assign) and any(attr_chain(t) == "self.steps" for t in s.targets)]
     for s in asg:
         ok = match(s.value, "list(steps)") is not None or match(s.value, "steps") is not None or match(s.value, "[*steps]") is not None
-        rep.check(ok, "SEQ-LIST", init, s, "stage list = the caller's sequence, same order", "the stored stage list is not the caller's sequence in its order", node=s)
+        vt = unparse(s.value)
+        wrong = any(k in vt for k in ("reversed(", "sorted(", "[::-1]", "set(", "shuffle")) or (isinstance(s.value, ast.Subscript) and isinstance(s.value.slice, ast.Slice))
+        rep.shape(ok, wrong, "SEQ-LIST", init, s, "stage list = the caller's sequence, same order", "the stored stage list is not the caller's sequence in its order", node=s)
         n += 1
     rep.floor("SequentialModel.__init__ stage-list assignments", len(asg), 1)
     cb = repo.cls(BASE, "ConfigurableModel")
     add = repo.method(cb, "add_step")
     ok = any(match(n_, "self.steps.append(step)") is not None for n_ in ast.walk(add.node))
-    rep.check(ok, "SEQ-LIST", add, "add_step appends to self.steps", "new stage goes to the end of the declared order", "add_step does not append the new stage at the end of self.steps")
+    wrong = any(isinstance(n_, ast.Call) and attr_chain(n_.func) == "self.steps.insert" for n_ in ast.walk(add.node))
+    rep.shape(ok, wrong, "SEQ-LIST", add, "add_step appends to self.steps", "new stage goes to the end of the declared order", "add_step does not append the new stage at the end of self.steps")
     rem = repo.method(cb, "remove_step")
     ok = any(match(n_, "self.steps.pop(index)") is not None for n_ in ast.walk(rem.node)) or any(match(n_, "del self.steps[index]") is not None for n_ in ast.walk(rem.node))
-    rep.check(ok, "SEQ-LIST", rem, "remove_step pops self.steps[index]", "exactly the indexed stage is removed", "remove_step does not remove exactly self.steps[index]")
+    pops = [n_ for n_ in ast.walk(rem.node) if isinstance(n_, ast.Call) and attr_chain(n_.func) == "self.steps.pop"]
+    wrong = any(not (p_.args and unparse(p_.args[0]) == "index") for p_ in pops)
+    rep.shape(ok, wrong, "SEQ-LIST", rem, "remove_step pops self.steps[index]", "exactly the indexed stage is removed", "remove_step does not remove exactly self.steps[index]")
     return n + 2
 
 
@@ -191,7 +196,7 @@ def rule_stage_lists(repo: Repo, rep: Report, only=None, rule: str = "STAGE-LIST
         for nm in want:
             a = [s for s in stmts_of(init.body) if isinstance(s, ast.Assign) and any(attr_chain(t) == f"self.{nm}" for t in s.targets)]
             for s in a:
-                rep.check(isinstance(s.value, ast.Name) and s.value.id == nm, rule, init, s, "published attribute is the stage itself", f"self.{nm} is not the `{nm}` stage that runs in the pipeline", node=s)
+                rep.shape(isinstance(s.value, ast.Name) and s.value.id == nm, isinstance(s.value, ast.Name) and s.value.id in want and s.value.id != nm, rule, init, s, "published attribute is the stage itself", f"self.{nm} is not the `{nm}` stage that runs in the pipeline", node=s)
     return n
 
 
@@ -280,7 +285,8 @@ def rule_mac(repo: Repo, rep: Report) -> int:
     loops = [s for s in stmts_of(fi.body) if isinstance(s, ast.For) and any(isinstance(c, ast.Call) and "encoder" in unparse(c.func) for c in ast.walk(s))]
     for lp in loops[:1]:
         ok = match(lp.iter, "range(self.num_users)") is not None or match(lp.iter, "range(len(x))") is not None
-        rep.check(ok, "PROVENANCE", fi, f"user loop: for {unparse(lp.target)} in {unparse(lp.iter)}", "all users are encoded", "the encoding loop does not range over all users", node=lp)
+        wrong = isinstance(lp.iter, ast.Call) and call_name(lp.iter) == "range" and (len(lp.iter.args) != 1 or isinstance(lp.iter.args[0], (ast.BinOp, ast.Constant)))
+        rep.shape(ok, wrong, "PROVENANCE", fi, f"user loop: for {unparse(lp.target)} in {unparse(lp.iter)}", "all users are encoded", "the encoding loop does not range over all users", node=lp)
         bad = [s for s in stmts_of(lp.body) if isinstance(s, (ast.Break, ast.Continue))]
         rep.check(not bad, "PROVENANCE", fi, "user loop has no break/continue", "no user is skipped", "a user can be skipped", node=bad[0] if bad else lp)
         n += 2
@@ -319,7 +325,8 @@ def rule_feedback(repo: Repo, rep: Report) -> int:
         return 0
     lp = loops[0]
     ok = match(lp.iter, "range(self.max_iterations)") is not None
-    rep.check(ok, "ROUNDS", fi, f"for {unparse(lp.target)} in {unparse(lp.iter)}", "exactly max_iterations rounds", "the number of rounds is not range(self.max_iterations)", node=lp)
+    wrong = isinstance(lp.iter, ast.Call) and call_name(lp.iter) == "range" and (len(lp.iter.args) != 1 or isinstance(lp.iter.args[0], (ast.BinOp, ast.Constant)))
+    rep.shape(ok, wrong, "ROUNDS", fi, f"for {unparse(lp.target)} in {unparse(lp.iter)}", "exactly max_iterations rounds", "the number of rounds is not range(self.max_iterations)", node=lp)
     bad = [s for s in stmts_of(lp.body) if isinstance(s, (ast.Break, ast.Return, ast.Continue, ast.Raise))]
     rep.check(not bad, "ROUNDS", fi, "iteration loop has no break/continue/return", "no early exit: every round runs all five stages", f"round can be cut short by `{unparse(bad[0]) if bad else ''}`", node=bad[0] if bad else lp)
     n += 2
@@ -496,7 +503,8 @@ def rule_parallel(repo: Repo, rep: Report) -> int:
     ci = repo.cls(PAR, "ParallelModel")
     add = repo.method(ci, "add_step")
     ok = any(match(x, "self.step_configs.append((name, step))") is not None for x in ast.walk(add.node))
-    rep.check(ok, "SEQ-LIST", add, "add_step appends (name, step) to self.step_configs", "declared order = insertion order", "add_step does not append (name, step) at the end")
+    wrong = any(isinstance(x, ast.Call) and attr_chain(x.func) == "self.step_configs.insert" for x in ast.walk(add.node))
+    rep.shape(ok, wrong, "SEQ-LIST", add, "add_step appends (name, step) to self.step_configs", "declared order = insertion order", "add_step does not append (name, step) at the end")
     return n + 1
 
 
@@ -514,7 +522,10 @@ def rule_branching(repo: Repo, rep: Report) -> int:
     lp = loops[0]
     n = 0
     ok = match(lp.iter, "self.branches.items()") is not None
-    rep.check(ok, "FIRST-MATCH", fi, f"for {unparse(lp.target)} in {unparse(lp.iter)}", "conditions are evaluated in registration (dict insertion) order", "branches are not visited in registration order", node=lp)
+    it_txt = unparse(lp.iter)
+    ok = ok or it_txt in ("list(self.branches.items())", "tuple(self.branches.items())")
+    wrong = any(k in it_txt for k in ("reversed(", "sorted(", "[::-1]", "set("))
+    rep.shape(ok, wrong, "FIRST-MATCH", fi, f"for {unparse(lp.target)} in {unparse(lp.iter)}", "conditions are evaluated in registration (dict insertion) order", "branches are not visited in registration order", node=lp)
     n += 1
     tgt = lp.target
     names = [unparse(e) for e in ast.walk(tgt) if isinstance(e, ast.Name)]
